@@ -323,8 +323,13 @@ func runRound(sp spec, round int, res *result, ops *counter) {
 					_, err := idx.GetInternal([]byte("k"))
 					check("GetInternal", err, cb || closeBegun.Load())
 				case 7:
-					if s := mon.ScorchOf(idx); s != nil && cfg.OnDisk && lg.Chance(1, 4) {
-						ctx, cancel := context.WithTimeout(context.Background(), 2*time.Second)
+					if s := mon.ScorchOf(idx); s != nil && cfg.OnDisk && lg.Chance(1, 2) {
+						// half of the forced merges are cancelled while (or before) they run
+						to := 2 * time.Second
+						if lg.Bool() {
+							to = time.Duration(lg.Range(20, 3000)) * time.Microsecond
+						}
+						ctx, cancel := context.WithTimeout(context.Background(), to)
 						_ = s.ForceMerge(ctx, nil)
 						cancel()
 						ops.add("ForceMerge")
